@@ -13,7 +13,7 @@ use crate::core::{Scenario, Tier};
 use runner::PropInfo;
 
 fn scenarios() -> Vec<Box<dyn Scenario>> {
-    vec![Box::new(scen::flow::Flow), Box::new(scen::rxsim::RxSim)]
+    vec![Box::new(scen::flow::Flow), Box::new(scen::rxsim::RxSim), Box::new(scen::txsim::TxSim), Box::new(scen::memsim::MemSim)]
 }
 
 const COMMON_ASSUMPTIONS: &[&str] = &[
